@@ -675,7 +675,7 @@ fn main() {
 		for b in &base {
 			for (key, val) in json_map(&b.to_json().unwrap()) {
 				if val.is_f64() {
-					for t in ["0.01", "0.45", "0.9", "2.5"] {
+					for t in ["0.01", "0.03", "0.07", "0.09", "0.13", "0.3", "0.45", "0.9", "2.5"] {
 						let mut x = b.boxed_clone();
 						if x.set(&key, t.to_string()).is_ok() && x.validate() {
 							cfgs.push(x);
